@@ -305,6 +305,8 @@ type ext4Woke struct {
 	Pfx []int  `json:"pfx"`
 	K   string `json:"k"`
 	Got int    `json:"got"`
+	OK    bool  `json:"ok"`    // what the woken receiver got is intact
+	Laddr []int `json:"laddr"` // abstract LocalAddr of what it got
 }
 
 type ext4Done struct {
@@ -594,7 +596,7 @@ func (w *ext4World) observe(e *ext4Ev) {
 }
 
 // recvResult turns a finished Accept / ReadFromSession into an item number (-1: error).
-func (w *ext4World) recvResult(o *ext4Op, e *ext4Ev, primary bool) int {
+func (w *ext4World) recvResult(o *ext4Op, e *ext4Ev, primary bool) (int, bool, []int) {
 	got := -1
 	var laddr []int
 	bodyok := false
@@ -630,10 +632,11 @@ func (w *ext4World) recvResult(o *ext4Op, e *ext4Ev, primary bool) int {
 			e.Laddr = laddr
 		}
 		e.BodyOK = bodyok
-	} else if got > 0 && !bodyok {
-		e.Err += "woken receiver got a damaged item; "
 	}
-	return got
+	if laddr == nil {
+		laddr = []int{}
+	}
+	return got, bodyok, laddr
 }
 
 func ext4Class(err error, table [][2]string) string {
@@ -764,7 +767,8 @@ func (w *ext4World) exec(s ext4Step) bool {
 					e.Err += o.err.Error()
 				}
 			case o.what == "recv":
-				e.Woke = append(e.Woke, ext4Woke{ID: o.id, Pfx: o.pfx, K: o.k, Got: w.recvResult(o, e, false)})
+				g, ok, la := w.recvResult(o, e, false)
+				e.Woke = append(e.Woke, ext4Woke{ID: o.id, Pfx: o.pfx, K: o.k, Got: g, OK: ok, Laddr: la})
 			default:
 				e.Err += "unexpected call finished: " + o.what + "; "
 			}
@@ -835,7 +839,8 @@ func (w *ext4World) exec(s ext4Step) bool {
 					}
 				}
 			case o.what == "recv":
-				e.Woke = append(e.Woke, ext4Woke{ID: o.id, Pfx: o.pfx, K: o.k, Got: w.recvResult(o, e, false)})
+				g, ok, la := w.recvResult(o, e, false)
+				e.Woke = append(e.Woke, ext4Woke{ID: o.id, Pfx: o.pfx, K: o.k, Got: g, OK: ok, Laddr: la})
 			default:
 				e.Err += "unexpected call finished: " + o.what + "; "
 			}
